@@ -5,7 +5,8 @@ from ..conccheck import run_conc, ob_ack, ob_conservation
 from ..framework import Run, load_known
 from .c03 import CONC_ASSUMPTIONS, base
 
-PROGRAMS_QUICK = ['CM', 'MC', 'QM', 'MQ', 'CC', 'CQ', 'QC', 'QQ', 'CA', 'AC', 'QA', 'AQ', 'PM', 'MP', 'BM', 'MB', 'XM', 'MX', 'PC', 'CP', 'XC', 'CX', 'BQ', 'QB']
+PROGRAMS_QUICK = ['CM', 'MC', 'QM', 'MQ', 'CC', 'CQ', 'QC', 'QQ', 'CA', 'AC', 'PM', 'MP', 'BM', 'MB', 'PC', 'CP', 'XC', 'CX']
+PROGRAMS_THOROUGH = PROGRAMS_QUICK + ['QA', 'AQ', 'XM', 'MX', 'BQ', 'QB', 'PP', 'BB', 'XX', 'PQ', 'QP']
 
 
 def obls(P):
@@ -18,7 +19,7 @@ def obls(P):
 
 def run(tier, seed):
     run = Run('C13', tier, seed)
-    progs = PROGRAMS_QUICK
+    progs = PROGRAMS_QUICK if tier == 'quick' else PROGRAMS_THOROUGH
     if os.environ.get('VERIF_CUBES'):
         progs = os.environ['VERIF_CUBES'].split(',')
     b = base(tier)
